@@ -14,7 +14,7 @@ for sd in sorted(glob.glob('/verif/seeded/*')):
     det = m.get('detected_by')
     if isinstance(det, dict): det = ['%s %s' % (det.get('check'), det.get('tier')) + (' - ' + det['result'] if 'missed' in det.get('result', '') else '')]
     summ = re.sub(r'\s+', ' ', m.get('summary', ''))[:170].replace('|', '/')
-    rows.append('| %s | %s | %s... | %s |' % (os.path.basename(sd), m.get('property'), summ, '; '.join(det or ['?']).replace('|', '/')))
+    rows.append('| %s | %s | %s... | %s |' % (os.path.basename(sd), m.get('property'), summ, '; '.join(det or ['NOT DETECTED (open gap)']).replace('|', '/')))
 d = re.sub(r'<!-- FIXED-BEGIN -->.*?<!-- FIXED-END -->', lambda _: '<!-- FIXED-BEGIN -->\n' + fixed + '\n<!-- FIXED-END -->', d, flags=re.S)
 d = re.sub(r'<!-- SEEDS-BEGIN -->.*?<!-- SEEDS-END -->', lambda _: '<!-- SEEDS-BEGIN -->\n' + '\n'.join(rows) + '\n<!-- SEEDS-END -->', d, flags=re.S)
 nfix = int(subprocess.run("git -C /repo log --oneline | grep -c ' fix:'", shell=True, capture_output=True, text=True).stdout)
